@@ -33,6 +33,7 @@ impl Report {
     }
     /// Record a disagreement between the specification's expectation and the implementation.
     pub fn mismatch(&mut self, property: &str, kind: &str, case_id: &str, detail: Value, case: &Value) {
+        *self.counters.entry(format!("mismatch:{}:{}", property, kind)).or_insert(0) += 1;
         let n = self.per_property.entry(property.to_string()).or_insert(0);
         *n += 1;
         if *n as usize <= MAX_MISMATCHES_PER_PROPERTY {
